@@ -125,6 +125,9 @@ def gcFrom (o : Opt) (active : List Hash) : List Nat → List SI → List SI
 def gc (o : Opt) (active : List Hash) (ss : List SI) : List SI :=
   gcFrom o active (List.range ss.length) ss
 
+/-- `space.add` -/
+def spaceAdd (a b : Space) : Space := ⟨Gen.spaceAddHead a b, Gen.spaceAddProc a b⟩
+
 /-! ### transferTarget -/
 
 def transfer (kind : Nat) (c : CS) (i j : Nat) (h : Hash) : CS :=
@@ -134,7 +137,7 @@ def transfer (kind : Nat) (c : CS) (i j : Nat) (h : Hash) : CS :=
     | none => c
     | some tar =>
       let t' : SI := { t with
-        rt := { t.rt with proc := t.rt.proc + tar.total, head := t.rt.head + tar.series },
+        rt := { t.rt with proc := Gen.transferProc t.rt tar, head := Gen.transferHead t.rt tar },
         scraping := t.scraping.set h tar }
       let f' : SI := { f with scraping := f.scraping.set h { tar with state := .inTransfer } }
       { c with
@@ -165,7 +168,7 @@ def apLoop (o : Opt) (i : Nat) (exp : Int) : List Hash → CS → Int → CS × 
         if Gen.apSkip tar then apLoop o i exp hs c total
         else if Gen.apTooBig o tar then (c, total, true)
         else match firstDst c.shards i (fun os => Gen.apDst o os.rt tar) with
-          | some j => apLoop o i exp hs (transfer 1 c i j h) (total - tar.total)
+          | some j => apLoop o i exp hs (transfer 1 c i j h) (Gen.apSub total tar)
           | none => apLoop o i exp hs c total
 
 def allevProcShard (o : Opt) (exp : Int) (order : List Hash) (c : CS) (i : Nat) : CS × Int :=
@@ -176,7 +179,7 @@ def allevProcShard (o : Opt) (exp : Int) (order : List Hash) (c : CS) (i : Nat) 
     if Gen.apDone total exp then (c, 0) else
     let (c', total', aborted) := apLoop o i exp order c total
     if aborted then (c', 0)
-    else if Gen.apNeed total' exp then (c', total' - exp) else (c', 0)
+    else if Gen.apNeed total' exp then (c', Gen.apAmount total' exp) else (c', 0)
 
 def ahLoop (o : Opt) (i : Nat) (exp : Int) : List Hash → CS → Int → CS × Int × Bool
   | [], c, total => (c, total, false)
@@ -191,7 +194,7 @@ def ahLoop (o : Opt) (i : Nat) (exp : Int) : List Hash → CS → Int → CS × 
         if Gen.ahSkip tar then ahLoop o i exp hs c total
         else if Gen.ahTooBig o tar then (c, total, true)
         else match firstDst c.shards i (fun os => Gen.ahDst o os.rt tar) with
-          | some j => ahLoop o i exp hs (transfer 2 c i j h) (total - tar.series)
+          | some j => ahLoop o i exp hs (transfer 2 c i j h) (Gen.ahSub total tar)
           | none => ahLoop o i exp hs c total
 
 def allevHeadShard (o : Opt) (exp : Int) (order : List Hash) (c : CS) (i : Nat) : CS × Int :=
@@ -202,7 +205,7 @@ def allevHeadShard (o : Opt) (exp : Int) (order : List Hash) (c : CS) (i : Nat) 
     if Gen.ahDone total exp then (c, 0) else
     let (c', total', aborted) := ahLoop o i exp order c total
     if aborted then (c', 0)
-    else if Gen.ahNeed total' exp then (c', total' - exp) else (c', 0)
+    else if Gen.ahNeed total' exp then (c', Gen.ahAmount total' exp) else (c', 0)
 
 /-- iteration order for the scraping map of shard `i` taken from a schedule component -/
 def orderFor (orders : List (List Hash)) (i : Nat) : List Hash := (orders[i]?).getD []
@@ -261,7 +264,7 @@ def weight (o : Opt) (r : Rt) : Int :=
 
 /-- candidates of `getFreeShard` among the first `n` shards -/
 def candidates (o : Opt) (ss : List SI) (n : Nat) (sp : Space) : List Nat :=
-  ((ss.take n).zipIdx).filterMap fun (s, j) => if s.changeable && Gen.fit o s.rt sp then some j else none
+  ((ss.take n).zipIdx).filterMap fun (s, j) => if !Gen.fitSkip s.changeable && Gen.fit o s.rt sp then some j else none
 
 inductive Pick | none | some (j : Nat) | crash
   deriving Repr, DecidableEq
@@ -286,7 +289,7 @@ def place (kind : Nat) (c : CS) (j : Nat) (h : Hash) (st : St) : CS :=
   | none => c
   | some t =>
     let t' : SI := { t with
-      rt := { t.rt with head := t.rt.head + st.series, proc := t.rt.proc + st.total },
+      rt := { t.rt with head := Gen.placeHead t.rt st, proc := Gen.placeProc t.rt st },
       scraping := t.scraping.set h st }
     { c with shards := c.shards.set j t',
              log := c.log ++ [⟨kind, h, none, j, st.series, st.total, t.rt.head, t.rt.proc⟩] }
@@ -300,10 +303,10 @@ def assignLoop (o : Opt) (scrapingSet : List Hash) (glob : Hash → St) :
     let status := glob h
     if Gen.assignSkip status then assignLoop o scrapingSet glob hs c picks need else
     if Gen.tooBig o status then assignLoop o scrapingSet glob hs c picks need else
-    let sp : Space := ⟨status.series, status.total⟩
+    let sp : Space := ⟨Gen.spaceOfHead status, Gen.spaceOfProc status⟩
     match getFreeShard o c.shards c.shards.length sp picks with
     | (.some j, picks') => assignLoop o scrapingSet glob hs (place 0 c j h status) picks' need
-    | (.none, picks') => assignLoop o scrapingSet glob hs c picks' (need.add sp)
+    | (.none, picks') => assignLoop o scrapingSet glob hs c picks' (spaceAdd need sp)
     | (.crash, picks') => ({ c with crashed := true }, picks', need)
 
 def scrapingSetOf (ss : List SI) : List Hash := (ss.map (·.scraping.keys)).flatten
@@ -320,14 +323,14 @@ def removableSuffix (ss : List SI) : Nat → Nat
   | 0 => 0
   | n + 1 =>
     match ss[n]? with
-    | some s => if Gen.removable s.changeable s.rt then removableSuffix ss n else n + 1
+    | some s => if Gen.removable s.changeable s.scraping.length s.rt then removableSuffix ss n else n + 1
     | none => n + 1
 
 /-- `shardCanBeIdle`'s greedy fit; `spaces` are the remaining spaces of the candidate shards -/
 def cbiPlace (o : Opt) (tar : St) : List Space → Option (List Space)
   | [] => none
   | sp :: rest =>
-    if Gen.cbiFit o sp tar then some (⟨sp.head - tar.series, sp.proc - tar.total⟩ :: rest)
+    if Gen.cbiFit o sp tar then some (⟨Gen.cbiSubHead sp tar, Gen.cbiSubProc sp tar⟩ :: rest)
     else (cbiPlace o tar rest).map (sp :: ·)
 
 def cbiLoop (o : Opt) (m : AL St) : List Hash → List Space → Bool
@@ -346,7 +349,7 @@ def shardCanBeIdle (o : Opt) (ss : List SI) (i : Nat) (order : List Hash) : Bool
   | none => false
   | some src =>
     if Gen.cbiBlocked src.changeable then false else
-    let spaces := ((ss.take i).filter (·.changeable)).map fun s =>
+    let spaces := ((ss.take i).filter (fun s => Gen.cbiCandidate s.changeable)).map fun s =>
       (⟨Gen.cbiSpaceHead o s.rt, Gen.cbiSpaceProc o s.rt⟩ : Space)
     cbiLoop o src.scraping order spaces
 
@@ -361,7 +364,7 @@ def sbiLoop (o : Opt) (i : Nat) : List Hash → CS → List Nat → CS × List N
       | none => sbiLoop o i hs c picks
       | some tar =>
         if Gen.sbiSkip tar then sbiLoop o i hs c picks else
-        match getFreeShard o c.shards i ⟨tar.series, tar.total⟩ picks with
+        match getFreeShard o c.shards i ⟨Gen.sbiSpaceHead tar, Gen.sbiSpaceProc tar⟩ picks with
         | (.some j, picks') => sbiLoop o i hs (transfer 3 c i j h) picks'
         | (.none, picks') => (c, picks', false)
         | (.crash, picks') => ({ c with crashed := true }, picks', false)
@@ -394,8 +397,8 @@ def tryScaleDown (o : Opt) (sc : Sched) (c : CS) (picks : List Nat) : Int × CS 
 def tryScaleUp (o : Opt) (ss : List SI) (sp : Space) : Int :=
   let up0 := Gen.upProc o sp
   let up := if Gen.upUseHead o sp up0 then Gen.upHead o sp else up0
-  let exp := (nChangeable ss : Int) + up
-  if Gen.upFloor exp ss.length then ss.length else exp
+  let exp := Gen.upSum (Gen.upBase ss.length (nChangeable ss)) up
+  if Gen.upFloor exp ss.length then Gen.upFloorTo ss.length (nChangeable ss) else exp
 
 /-! ### updateScrapingTargets / applyShardsInfo -/
 
@@ -439,37 +442,38 @@ structure Outcome where
   deriving Repr, Inhabited
 
 def divCrash (o : Opt) (need : Space) : Bool :=
-  !Gen.spaceIsZero need && o.maxProc == 0
+  Gen.needUp (Gen.spaceIsZero need) && o.maxProc == 0
 
 def cycle (swr : Swr) (sc : Sched) (inp : Input) : Outcome :=
   let o := inp.opt
   let infos := inp.probes.map getInfo
   let ss0 := infos.map (·.1)
   let getReqs := infos.map (·.2)
-  let early := Gen.earlyMin o (nChangeable ss0)
+  let early := Gen.earlyMin o ss0.length (nChangeable ss0)
+  let earlyTo := Gen.earlyTo o ss0.length (nChangeable ss0)
   if early && inp.scaleErr1 then
-    { reqs := getReqs, scales := [o.minShard], log := [], final := ss0, afterGc := ss0, crashed := false }
+    { reqs := getReqs, scales := [earlyTo], log := [], final := ss0, afterGc := ss0, crashed := false }
   else
-  let scales0 : List Int := if early then [o.minShard] else []
+  let scales0 : List Int := if early then [earlyTo] else []
   let glob := globalOf ss0 inp.explore
   let ss1 := gc o inp.active ss0
   let (c2, need1) := alleviate swr o sc { shards := ss1 }
   let (c3, picks, need2) := assign o inp.active glob sc c2
-  let need := need1.add need2
+  let need := spaceAdd need1 need2
   if c3.crashed || divCrash o need then
     { reqs := getReqs, scales := scales0, log := c3.log, final := c3.shards, afterGc := ss1, crashed := true }
   else
   let (scale, c4) : Int × CS :=
-    if !Gen.spaceIsZero need then (tryScaleUp o c3.shards need, c3)
+    if Gen.needUp (Gen.spaceIsZero need) then (tryScaleUp o c3.shards need, c3)
     else if Gen.scaleDownOn o then tryScaleDown o sc c3 picks
-    else ((c3.shards.length : Int), c3)
+    else (Gen.scaleInit c3.shards.length (nChangeable c3.shards), c3)
   if c4.crashed then
     { reqs := getReqs, scales := scales0, log := c4.log, final := c4.shards, afterGc := ss1, crashed := true }
   else
-  let scale := if Gen.clampMax o scale then o.maxShard else scale
-  let scale := if Gen.clampMin o scale then o.minShard else scale
+  let scale := if Gen.clampMax o scale then Gen.clampMaxTo o else scale
+  let scale := if Gen.clampMin o scale then Gen.clampMinTo o else scale
   let apply := (inp.probes.zip c4.shards).map fun (p, s) => applyReqs inp.active p s
   { reqs := (getReqs.zip apply).map fun (a, b) => a ++ b,
-    scales := scales0 ++ [scale], log := c4.log, final := c4.shards, afterGc := ss1, crashed := false }
+    scales := scales0 ++ [Gen.finalScaleArg scale], log := c4.log, final := c4.shards, afterGc := ss1, crashed := false }
 
 end Kvass.Coord
